@@ -140,6 +140,13 @@ class Stream:
 
         """
         self.ensure_usable()
+        if not self.options.params.namespace_declarations:
+            msg = (
+                "namespace declarations are not enabled for this stream: it declares "
+                "protocol version 1, whose readers do not know namespace rows. Set "
+                "StreamParameters(namespace_declarations=True)."
+            )
+            raise JellyConformanceError(msg)
         try:
             rows = encode_namespace_declaration(
                 name=name,
